@@ -247,3 +247,8 @@ class PoolParams(ArrayCBORSerializable):
     relays: Optional[List[Relay]] = None
     pool_metadata: Optional[PoolMetadata] = None
     id: Optional[PoolId] = field(default=None, metadata={"optional": True})
+
+    def __post_init__(self):
+        # On the wire the relays are a (possibly empty) list: [* relay]; null was written for None
+        if self.relays is None:
+            self.relays = []
